@@ -161,6 +161,13 @@ DIRECTED = {
     'dpk/queue.py': 'def qb():\n    """qb"""\nclass Same:\n    pass\n',
     'dpk/users.py': 'from dpk._impl import *\nfrom dpk import *\nclass U(Delta, Theta):\n    """See L{alpha} and L{Epsilon}."""\n    x = {1, 2, 3}\n    y = frozenset(["a", "b"])\n',
     'other.py': 'from dpk import Delta\nclass O(Delta):\n    pass\n',
+    # several interfaces that declare the same members, implemented by one base class and inherited: which interface a member is
+    # attributed to ("from IXxx") must not depend on the hash seed
+    'dpk/zi.py': 'from zope.interface import Interface, implementer, Attribute\n' +
+                 ''.join(f'class I{n}(Interface):\n    """Interface {n}."""\n    def read(size):\n        """read of I{n}"""\n    def close():\n        """close of I{n}"""\n    name = Attribute("name of I{n}")\n'
+                         for n in ('Alpha', 'Beta', 'Gamma', 'Delta', 'Epsilon', 'Zeta')) +
+                 '@implementer(IAlpha, IBeta, IGamma)\nclass Base:\n    def read(self, size): pass\n@implementer(IDelta, IEpsilon, IZeta)\nclass Mixin:\n    pass\n'
+                 'class Temp(Base, Mixin):\n    def read(self, size): pass\n    def close(self): pass\n    name = "x"\nclass Temp2(Mixin, Base):\n    def close(self): pass\n    name = "y"\n',
 }
 
 
